@@ -470,14 +470,14 @@ Section UniCtlFit.
       | FKDE =>
           let step :=
             if truthy (s_ss s) then
-              match jv_nat (s_ss s) with
-              | Some n =>
-                  match kde_check (d_n X) false (s_bw s) (s_w s) with
-                  | None => Ok (JList [JList (map qj (o_resample X (s_bw s) (s_w s) n g))],
-                                mkDraw (JStr "kde.fit.resample") n :: g)
-                  | Some e => Err e
+              match kde_check (d_n X) false (s_bw s) (s_w s) with
+              | None =>
+                  match jv_nat (s_ss s) with
+                  | Some n => Ok (JList [JList (map qj (o_resample X (s_bw s) (s_w s) n g))],
+                                  mkDraw (JStr "kde.fit.resample") n :: g)
+                  | None => Err TypeErr
                   end
-              | None => Err TypeErr
+              | Some e => Err e
               end
             else Ok (JList (map qj (o_tolist X)), g) in
           match step with
